@@ -235,6 +235,13 @@ def run_case(concepts, case, spec):
             if rel2 is not RAISED:
                 call(str, rel2)
             COL.count('returned_list_edited_then_asked_again')
+    if len(ctx.objects) <= 12 and len(ctx.properties) <= 12:
+        common.interference(concepts, ctx, common.get_lattice(ctx), rng, 12)
+        rel = call(ctx.relations, True)
+        if rel is not RAISED:
+            call(str, rel)
+        call(ctx.relations)
+        COL.count('asked_again_after_interference')
     old = POOL.older(rng)
     if old is not None:
         r = call(old.relations)
